@@ -1,6 +1,7 @@
 import PoxModel.Proofs.Contain
 import PoxModel.Proofs.SwTrace
 import PoxModel.Proofs.CtlTrace
+import PoxModel.Proofs.Round
 /-! # C10 — malformed OpenFlow input is contained to the offending connection
 
 `U` (the message decoders) is COMPLETELY unconstrained in every theorem of this file: it may return any offset, raise,
@@ -242,5 +243,56 @@ theorem ctl_disconnect_persists (U : Unpack Msg) (D : Msg → Bool) (s : CS Msg)
   simp [h8]
 example : ([[1,2,0,8,0,0,0,1, 1], [3,0,8,0,0,0,5, 1,4,0,8,0,0,0,6]].foldl (ctlFeedD demoU (fun m => m == 2) 8) init).delivered = [2] ∧
     ([[1,2,0,8,0,0,0,1, 1], [3,0,8,0,0,0,5, 1,4,0,8,0,0,0,6]].foldl (ctlFeedD demoU (fun m => m == 2) 8) init).st = .closed := by decide
+
+/-! ## one select round serves several connections
+
+`OpenFlow_01_Task.run` and `RecocoIOLoop.run` get the list of ALL readable connections from one `select` and serve them one
+after the other.  `serveRound feed net items` is that round (`items` = the readable connections with the bytes their sockets
+hold, in service order; a connection is readable at most once per round: `Nodup`).  The harness runs such rounds against
+the real loops in every service order, and asks the single-connection model about each connection on its own: the next
+theorems are why that is enough. -/
+
+/-- **round_order_irrelevant**: the states of all connections after a round do not depend on the order in which select
+listed (and the loop served) the readable connections -/
+theorem round_order_irrelevant (feed : CS Msg → Bytes → CS Msg) (net : List (CS Msg)) (l₁ l₂ : List (Nat × Bytes))
+    (hn : (l₁.map (·.1)).Nodup) (hp : l₁.Perm l₂) : serveRound feed net l₁ = serveRound feed net l₂ :=
+  serveRound_perm feed net l₁ l₂ hn hp
+
+/-- **round_independent**: after a round, a connection that was readable is exactly as if it ALONE had been served with its
+own bytes, and a connection that was not readable is exactly as before — whatever the other connections' bytes were and
+whatever happened to them (malformed input, give-up, exception in a decoder) -/
+theorem round_independent (feed : CS Msg → Bytes → CS Msg) (net : List (CS Msg)) (items : List (Nat × Bytes))
+    (hn : (items.map (·.1)).Nodup) :
+    (∀ i c, (i, c) ∈ items → (serveRound feed net items)[i]? = (feedAt feed net i c)[i]?) ∧
+    (∀ j, (∀ e ∈ items, e.1 ≠ j) → (serveRound feed net items)[j]? = net[j]?) := by
+  refine ⟨fun i c hm => ?_, fun j hj => serveRound_others feed items net j hj⟩
+  rw [serveRound_at feed items net i c hn hm, feedAt_self]
+
+/-- **ctl_round_contained**: a round of the controller's serving task, whatever the readable connections received and in
+whatever order they are served, leaves no connection in the "exception escaped" state -/
+theorem ctl_round_contained (U : Unpack Msg) (items : List (Nat × Bytes)) :
+    ∀ (net : List (CS Msg)), (∀ x ∈ net, x.st ≠ .dead) →
+      ∀ x ∈ items.foldl (fun n e => ctlServe U n e.1 e.2) net, x.st ≠ .dead := by
+  induction items with
+  | nil => intro net h; exact h
+  | cons e rest ih =>
+    intro net h
+    exact ih _ (ctl_task_contained U net e.1 e.2 h).1
+
+/-- the controller's round IS `serveRound` of its per-connection step (so the two theorems above apply to it) -/
+theorem ctl_round_is_serveRound (U : Unpack Msg) (net : List (CS Msg)) (items : List (Nat × Bytes)) :
+    items.foldl (fun n e => ctlServe U n e.1 e.2) net
+      = serveRound (fun c ch => let r := ctlFeed U 8 c ch
+                                if r.st = .dead then { r with st := .closed } else r) net items := rfl
+
+/-! non-vacuity: three connections, 0 gets a message with length field 4 (gives up), 2 gets a valid one; both orders -/
+example : ((serveRound (ctlFeed demoU 8) [init, init, init] [(0, [1,2,0,4,0,0,0,1]), (2, [1,2,0,8,0,0,0,1])]).map (·.st))
+            = [.closed, .alive, .alive] ∧
+          (serveRound (ctlFeed demoU 8) [init, init, init] [(0, [1,2,0,4,0,0,0,1]), (2, [1,2,0,8,0,0,0,1])]).map
+              (fun x => (x.st, x.delivered, x.buf))
+            = (serveRound (ctlFeed demoU 8) [init, init, init] [(2, [1,2,0,8,0,0,0,1]), (0, [1,2,0,4,0,0,0,1])]).map
+              (fun x => (x.st, x.delivered, x.buf)) ∧
+          ((serveRound (ctlFeed demoU 8) [init, init, init] [(0, [1,2,0,4,0,0,0,1]), (2, [1,2,0,8,0,0,0,1])]).map (·.delivered))
+            = [[], [], [2]] := by decide
 
 end Pox.C10
